@@ -196,7 +196,32 @@ func (p *Prog) Func(name string) *ssa.Function {
 	if al := p.aliasOf("func", name); al != "" {
 		name = al
 	}
-	return p.Lime.Func(name)
+	if fn := p.Lime.Func(name); fn != nil {
+		return fn
+	}
+	// a private function that became a method (same name, one declaration)
+	if !token.IsExported(name) {
+		return p.uniqueByName(name, true)
+	}
+	return nil
+}
+
+// uniqueByName: the only declared private method (methods=true) or package-level function (methods=false) of package lime
+// with this name, if there is exactly one.
+func (p *Prog) uniqueByName(name string, methods bool) *ssa.Function {
+	var found *ssa.Function
+	n := 0
+	for _, fn := range p.privateFuncs() {
+		if fn.Pkg != p.Lime || fn.Name() != name || (fn.Signature.Recv() != nil) != methods {
+			continue
+		}
+		found = fn
+		n++
+	}
+	if n == 1 {
+		return found
+	}
+	return nil
 }
 
 // Method returns the SSA function for method name declared on named type typ (pointer or value receiver).
@@ -213,6 +238,10 @@ func (p *Prog) Method(typ, name string) *ssa.Function {
 		if m.Name() == name {
 			return p.SSA.FuncValue(m)
 		}
+	}
+	// a private method that became a package-level function of the same name
+	if !token.IsExported(name) {
+		return p.uniqueByName(name, false)
 	}
 	return nil
 }
